@@ -158,25 +158,28 @@ mod c12 {
 def schedules(ctx):
     """Concrete timing schedules (window ns, [(kind, t ns)...]) with non-decreasing, possibly repeated timestamps."""
     ms = 1_000_000
+    # Only schedules in which at most ONE sample is inside the deque at any time (present samples separated by errors):
+    # with two queued samples CBMC's symex of the heap-backed VecDeque/Vec code needs > 100 s and a 760 MB formula
+    # with quantifiers (measured), so longer windows are outside the claim.
     base = [
-        (10 * ms, [(0, 100 * ms), (0, 103 * ms), (0, 106 * ms)]),                 # regular, window > history
-        (5 * ms, [(0, 100 * ms), (0, 103 * ms), (0, 106 * ms)]),                  # window between one and two steps
-        (2 * ms, [(0, 100 * ms), (0, 103 * ms), (0, 106 * ms)]),                  # window shorter than a step
-        (10 * ms, [(0, 100 * ms), (0, 100 * ms), (0, 104 * ms)]),                 # repeated timestamp
-        (3 * ms, [(0, 100 * ms), (0, 103 * ms), (0, 103 * ms)]),                  # sample exactly on the window edge, repeated
         (10 * ms, [(0, 100 * ms), (2, 0), (0, 104 * ms)]),                        # error clears the window
-        (10 * ms, [(0, 100 * ms), (1, 0), (0, 104 * ms)]),                        # absent is ignored
-        (1, [(0, 7), (0, 7), (0, 8)]),                                            # 1 ns window
-        (7 * ms, [(0, 100 * ms), (0, 101 * ms), (0, 105 * ms), (0, 109 * ms)]),   # irregular, 4 samples
+        (10 * ms, [(2, 0), (1, 0), (0, 104 * ms)]),                               # absent after error clears the cached error
+        (10 * ms, [(0, 100 * ms), (1, 0), (2, 0)]),                               # absent is ignored, then error
+        (1, [(0, 7), (2, 0), (0, 7)]),                                            # 1 ns window, repeated timestamp across an error
     ]
     rng = ctx.rng
-    for _ in range(3 if ctx.quick else 12):
+    for _ in range(2 if ctx.quick else 8):
         w = rng.choice([1, 2, 5, 10, 50]) * ms
         t = 100 * ms
         evs = []
+        last_present = False
         for _ in range(3 if ctx.quick else 4):
             t += rng.choice([0, 1, 2, 3, 7, 20]) * ms
-            kind = rng.choice([0, 0, 0, 0, 1, 2])
+            kind = rng.choice([1, 2]) if last_present else rng.choice([0, 0, 1, 2])
+            if kind == 2:
+                last_present = False
+            elif kind == 0:
+                last_present = True
             evs.append((kind, t if kind == 0 else 0))
         base.append((w, evs))
     sks = []
@@ -209,6 +212,7 @@ def spec(ctx):
         "skeleton_space": {"ewma histories": len(hsk), "moving-average schedules [k, window_ns, (kind, t_ns)*]": [list(s) for s in sch]},
         "assumptions": ["powf replaced by an injective bit mixer in c12_ewma (argument routing, not its value)",
                         "f32 and Quantity moving averages differ only by a leading `0.0 +`, which preserves every f32 value (IEEE)"],
-        "not_decided": ["convexity / 'constant in => constant out' (rounding clauses)", "no-panic of the moving average for SYMBOLIC multi-sample timing",
+        "not_decided": ["convexity / 'constant in => constant out' (rounding clauses)", "the moving average with two or more samples inside the window (weights, telescoping sum, no-panic): CBMC's symex of the heap-backed VecDeque/Vec "
+                        "needs > 100 s and produces a 760 MB quantified formula for 3 samples (measured) - only single-sample windows are decided",
                         "Quantity moving average beyond the first update", "accuracy of powf"],
     }
